@@ -38,6 +38,89 @@
 ; the two packings of the insertion batch agree bit for bit
 (lemma insPack_link
   (forall ((start Int) (pre Int) (post Int) (idc (Array Int Int)) (t Int))
-    (=> (and (<= 0 t) (<= 0 start) (<= 0 pre) (<= 0 post) (forall ((k Int)) (<= 0 (select idc k))))
+    (=> (and (<= 0 t) (<= 0 start) (<= 0 pre) (<= 0 post) (=> (>= t 544) (<= 0 (select idc (div (- t 544) 256)))))
         (= (select (link.bits8 (pack.insBytes start pre post idc)) t) (pack.insBit start pre post idc t))))
   :lemmas (bits8_sel insBytes_sel beByte_bit))
+
+; the deletion packing, region by region (indices, pre-root, post-root)
+(lemma delPack_link_idx
+  (forall ((dix (Array Int Int)) (pre Int) (post Int) (b Int) (q Int) (r Int))
+    (=> (and (<= 0 q) (< q b) (<= 0 r) (< r 32) (<= 0 (select dix q)))
+        (= (select (link.bits8 (pack.delBytes dix pre post b)) (+ (* 32 q) r)) (pack.delBit dix pre post b (+ (* 32 q) r)))))
+  :lemmas (bits8_sel delBytes_sel beByte_bit))
+(lemma delPack_link_pre
+  (forall ((dix (Array Int Int)) (pre Int) (post Int) (b Int) (u Int))
+    (=> (and (<= 0 b) (<= 0 u) (< u 256) (<= 0 pre))
+        (= (select (link.bits8 (pack.delBytes dix pre post b)) (+ (* 32 b) u)) (pack.delBit dix pre post b (+ (* 32 b) u)))))
+  :lemmas (bits8_sel delBytes_sel beByte_bit))
+(lemma delPack_link_post
+  (forall ((dix (Array Int Int)) (pre Int) (post Int) (b Int) (u Int))
+    (=> (and (<= 0 b) (<= 0 u) (< u 256) (<= 0 post))
+        (= (select (link.bits8 (pack.delBytes dix pre post b)) (+ (* 32 b) 256 u)) (pack.delBit dix pre post b (+ (* 32 b) 256 u)))))
+  :lemmas (bits8_sel delBytes_sel beByte_bit))
+
+; ---------------- value link: big-endian bytes of a bit string vs. pack.beval ----------------
+; byte k of an LSB-first bit string
+(define-fun link.byteOf ((d (Array Int Int)) (k Int)) Int
+  (+ (select d (* 8 k)) (* 2 (select d (+ (* 8 k) 1))) (* 4 (select d (+ (* 8 k) 2))) (* 8 (select d (+ (* 8 k) 3)))
+     (* 16 (select d (+ (* 8 k) 4))) (* 32 (select d (+ (* 8 k) 5))) (* 64 (select d (+ (* 8 k) 6))) (* 128 (select d (+ (* 8 k) 7)))))
+(always-reveal link.byteOf)
+
+; eight steps of binvalFrom at once
+(lemma binvalFrom_8
+  (forall ((s (Array Int Int)) (j Int) (n Int))
+    (=> (<= (+ j 8) n)
+        (= (bits.binvalFrom s j n)
+           (+ (select s j) (* 2 (select s (+ j 1))) (* 4 (select s (+ j 2))) (* 8 (select s (+ j 3))) (* 16 (select s (+ j 4)))
+              (* 32 (select s (+ j 5))) (* 64 (select s (+ j 6))) (* 128 (select s (+ j 7))) (* 256 (bits.binvalFrom s (+ j 8) n))))))
+  :unfold ((bits.binvalFrom s j n) (bits.binvalFrom s (+ j 1) n) (bits.binvalFrom s (+ j 2) n) (bits.binvalFrom s (+ j 3) n)
+           (bits.binvalFrom s (+ j 4) n) (bits.binvalFrom s (+ j 5) n) (bits.binvalFrom s (+ j 6) n) (bits.binvalFrom s (+ j 7) n)))
+
+; the top m bytes of the swapped string are the big-endian number of the first m bytes
+(lemma beval_bytes
+  (forall ((d (Array Int Int)) (h (Array Int Int)) (mm Int) (m Int))
+    (=> (and (<= 0 m) (<= m mm) (forall ((k Int)) (=> (and (<= 0 k) (< k mm)) (= (select h k) (link.byteOf d k)))))
+        (= (bits.binvalFrom (pack.beSwap d (* 8 mm)) (* 8 (- mm m)) (* 8 mm)) (bytes.beIntFrom h 0 m))))
+  :induct m :inst (d h mm (- m 1))
+  :unfold ((bytes.beIntFrom h 0 m))
+  :lemmas (binvalFrom_8 binvalFrom_end beSwap_sel))
+
+(lemma beval_bytes32
+  (forall ((d (Array Int Int)) (h (Array Int Int)))
+    (! (=> (forall ((k Int)) (=> (and (<= 0 k) (< k 32)) (= (select h k) (link.byteOf d k))))
+           (= (pack.beval d 256) (bytes.beIntFrom h 0 32)))
+       :pattern ((pack.beval d 256) (bytes.beIntFrom h 0 32))))
+  :lemmas (beval_bytes))
+
+; ASSUMED: the library Keccak-256 on bytes is the bit-level specification with bits LSB-first inside bytes
+; (validated by the input-hash link vectors of the thorough tier)
+(axiom keccakb_def
+  (forall ((a (Array Int Int)) (n Int) (k Int))
+    (! (=> (and (<= 0 k) (< k 32)) (= (select (keccakb.hash256 a n) k) (link.byteOf (keccak.digest (link.bits8 a) (* 8 n) 1) k)))
+       :pattern ((select (keccakb.hash256 a n) k)))))
+
+; the value the off-chain helper computes is the value the circuit enforces (before reduction modulo r)
+(lemma link_ins
+  (forall ((start Int) (pre Int) (post Int) (idc (Array Int Int)) (n Int))
+    (! (=> (and (<= 68 n) (<= 0 start) (<= 0 pre) (<= 0 post)
+                (forall ((k Int)) (=> (and (<= 0 k) (< (+ 68 (* 32 k)) n)) (<= 0 (select idc k)))))
+           (= (bytes.beIntFrom (keccakb.hash256 (pack.insBytes start pre post idc) n) 0 32)
+              (pack.beval (keccak.digest (pack.insBits start pre post idc) (* 8 n) 1) 256)))
+       :pattern ((keccakb.hash256 (pack.insBytes start pre post idc) n))))
+  :lemmas (keccakb_def beval_bytes32 keccak_ext insPack_link insBits_sel))
+
+; the deletion packings agree on every bit of the message
+(lemma delPack_link
+  (forall ((dix (Array Int Int)) (pre Int) (post Int) (b Int) (t Int))
+    (=> (and (<= 0 t) (< t (+ (* 32 b) 512)) (<= 0 b) (<= 0 pre) (<= 0 post) (forall ((k Int)) (=> (and (<= 0 k) (< k b)) (<= 0 (select dix k)))))
+        (= (select (link.bits8 (pack.delBytes dix pre post b)) t) (pack.delBit dix pre post b t))))
+  :use ((delPack_link_idx dix pre post b (div t 32) (mod t 32))
+        (delPack_link_pre dix pre post b (- t (* 32 b)))
+        (delPack_link_post dix pre post b (- t (+ (* 32 b) 256)))))
+(lemma link_del
+  (forall ((dix (Array Int Int)) (pre Int) (post Int) (b Int) (n Int))
+    (! (=> (and (<= 0 b) (= n (+ (* 4 b) 64)) (<= 0 pre) (<= 0 post) (forall ((k Int)) (=> (and (<= 0 k) (< k b)) (<= 0 (select dix k)))))
+           (= (bytes.beIntFrom (keccakb.hash256 (pack.delBytes dix pre post b) n) 0 32)
+              (pack.beval (keccak.digest (pack.delBits dix pre post b) (* 8 n) 1) 256)))
+       :pattern ((keccakb.hash256 (pack.delBytes dix pre post b) n))))
+  :lemmas (keccakb_def beval_bytes32 keccak_ext delPack_link delBits_sel))
